@@ -1,7 +1,7 @@
 //@ tu: libxcm/core/attr_path.c
 //@ enforce: attr_path_equal
-//@ pre-unwind: attr_path_equal.0:6 strcmp.0:17
-//@ bounded: two arbitrary well-shaped paths of 0..4 components each (key or index, any index value), keys of 0..15 characters
+//@ pre-unwind: attr_path_equal.0:6 strcmp.0:9
+//@ bounded: two arbitrary well-shaped paths of 0..4 components each (key or index, any index value), keys of 0..7 characters
 //@ props: C19
 //@ expect: postcondition>=5 canary=3
 #include "_unit.h"
